@@ -156,7 +156,8 @@ Qed.
 
 (* a member rule under ignoretz: the parts of the line, UNTIL naive, then the constructor *)
 Theorem parse_rule_ignoretz ev line st k : parse_rrule_kw false line = Ok k ->
-  parse_rule ev true line st = (if isNone (k_freq k) then Err EValue else ctor ev st (untz_kw k)).
+  parse_rule ev true line st =
+  (if isNone (k_freq k) then Err EValue else catch (ctor ev st (untz_kw k)) [EOverflow] EValue).
 Proof. intro H. unfold parse_rule. rewrite (ignoretz_kw line k H). reflexivity. Qed.
 
 (* non-vacuity: zoned members, read naive *)
